@@ -24,7 +24,7 @@ class C16(Pipeline):
           ("TokenFactory_mc", "TokenFactory_mc_deep", ("thorough",))]
     gens = [Gen("TokenFactoryGen", "TokenFactoryGen_cover", "bfs", tiers=("quick",), timeout=300),
             Gen("TokenFactoryGen", "TokenFactoryGen_cover_big", "bfs", tiers=("thorough",), timeout=1200),
-            Gen("TokenFactoryGen", "TokenFactoryGen_sim", "simulate", num=250, depth=14, tiers=("quick",), timeout=300),
+            Gen("TokenFactoryGen", "TokenFactoryGen_sim", "simulate", num=400, depth=14, tiers=("quick",), timeout=300),
             Gen("TokenFactoryGen", "TokenFactoryGen_sim", "simulate", num=2500, depth=14, tiers=("thorough",), timeout=1200)]
     driver_pkg = "drivers/tokenfactory"
     driver_test = "TestDriveTokenFactory"
